@@ -700,6 +700,7 @@ ann('impl#2', 'impl-start', r"""
     closed spec fn p_step_limit(&self) -> real { rv(self.connection_radius) }
     closed spec fn p_step_params_ok(&self) -> bool { true }
     closed spec fn p_in_bounds(&self) -> bool { self.in_bounds_inv() }
+    closed spec fn p_space_ok(&self, sp: &SP) -> bool { true }
 """, 'prm.planner_specs')
 
 ann('fn setup', 'sig', r"""
